@@ -821,7 +821,7 @@ where
             Ok(()) => Ok(()),
             Err(f) => {
                 failed.store(true, Ordering::Relaxed);
-                if f.signature.starts_with("hang@") || f.signature.starts_with("crash@") {
+                if f.signature.starts_with("hang@") || f.signature.starts_with("crash@") || f.signature.starts_with("deadlock@") {
                     hung.store(true, Ordering::Relaxed);
                 }
                 let mut ff = first_fail.lock().unwrap();
